@@ -124,6 +124,9 @@ type c15Run struct {
 	ops   []c15Op
 	setup map[string]string
 
+	// holds snapd reported at the clock's position in the last observation
+	lastReported map[c15Key]bool
+
 	accepted, refused int
 	crossed           bool
 	failed            bool
@@ -180,6 +183,9 @@ func (h *c15Run) judge(tau time.Time, level HoldLevel, held map[string][]string,
 		h.c.Count("probes", 1)
 	}
 	reported := map[c15Key]bool{}
+	if !probe && level == HoldAutoRefresh {
+		h.lastReported = reported
+	}
 	for x, holders := range held {
 		for _, g := range holders {
 			reported[c15Key{x, g}] = true
@@ -286,7 +292,15 @@ func (h *c15Run) observe(tau time.Time, probe bool) {
 	h.now = saved
 }
 
-var c15Offsets = []time.Duration{-time.Hour, -time.Second, -1, 0, 1, time.Second, time.Hour}
+// probe offsets around every bound. Nothing is judged at the bound itself and
+// the clock is also moved exactly onto bounds by the workload, so the quick
+// tier leaves out 0 and -1ns.
+var c15Offsets = func() []time.Duration {
+	if kit.Quick() {
+		return []time.Duration{-time.Hour, -time.Second, 1, time.Second, time.Hour}
+	}
+	return []time.Duration{-time.Hour, -time.Second, -1, 0, 1, time.Second, time.Hour}
+}()
 
 // boundaries returns every instant at which the statement changes its mind
 // about some current hold.
@@ -311,6 +325,10 @@ func (h *c15Run) boundaries() []time.Time {
 	})
 	for _, k := range keys {
 		e := h.m.ep[k]
+		if !e.Live && !h.lastReported[k] {
+			// over, and snapd agrees: no bound left to watch
+			continue
+		}
 		b48, has48, b90 := h.m.bounds(k.Held, k.Holder, e.Start)
 		if has48 {
 			add(b48)
@@ -673,6 +691,19 @@ func (h *c15Run) step(p *c15Profile) {
 			}
 		}
 	}
+	// snaps far past the 90-day bound get refreshed sooner rather than later
+	// (snapd forces the refresh); keeps refusals from dominating the history
+	var overdue []string
+	for _, n := range inst {
+		if h.now.After(m.lastRefresh[n].Add(c15TotalBound + time.Hour)) {
+			overdue = append(overdue, n)
+		}
+	}
+	if len(overdue) > 0 && h.r.Intn(100) < 40 {
+		h.opRefresh(overdue[h.r.Intn(len(overdue))], 0)
+		h.sweepAfter(true)
+		return
+	}
 	total := p.hold + p.advance + p.proceed + p.sys + p.sysUnhold + p.refresh + p.remove + p.prune
 	k := h.r.Intn(total)
 	pick := func(w int) bool {
@@ -880,6 +911,13 @@ func TestVerifC15(t *testing.T) {
 	c.Assume("a refresh is modelled as resetGatingForRefreshed(snap) followed (0-10 min later) by stamping LastRefreshTime, removal as pruneSnapsHold + Set(nil): the calls the real handlers make, without running the task graph")
 	c.Assume("the administrator's requested time is never equal to the clock reading to the nanosecond (HoldRefreshesBySystem turns a zero duration into 'forever'; with a real clock this has measure zero); set VERIF_C15_UNTIL_EQ_NOW=1 to generate it")
 	c.Assume("at the exact instant of a bound (now == first-held+48h, now == last-refresh+90d, now == requested time) a reported hold is not judged; 'more than'/'beyond' in the statement start one nanosecond later, and that is probed")
+	n := kit.Scale(300, 4000)
+	if only := kit.OnlyCase(); only >= 0 {
+		// replay of one case: no floors
+		c.MinDistinct(0)
+		c15History(c, t, only)
+		return
+	}
 	c.Floor("holds_accepted", 400)
 	c.Floor("holds_refused", 100)
 	c.Floor("holds_requested_at_or_past_bound_48h", 30)
@@ -895,11 +933,6 @@ func TestVerifC15(t *testing.T) {
 	c.Floor("refreshes_of_snap_held_by_snap", 30)
 	c.MinDistinct(50)
 
-	n := kit.Scale(700, 6000)
-	if only := kit.OnlyCase(); only >= 0 {
-		c15History(c, t, only)
-		return
-	}
 	for idx := 0; idx < n; idx++ {
 		c15History(c, t, idx)
 		if c.Violations() > 40 {
